@@ -6,7 +6,7 @@ def dump(e):
     return (e.tag, tuple(e.attrs), tuple(k if isinstance(k, str) else dump(k) for k in e.kids if not (isinstance(k, str) and not k.strip())))
 
 BODY = list('abcXY019 ') + list('-|+/\\*<>&.\'`_~:=oO#^v()[]') + gens.LATIN2 + gens.CJK + ['́', '\t', '{', '}']
-BODY = [c for c in BODY if c not in '"\\{}']
+BODY = [c for c in BODY if c not in '"\\{}'] + ['├', '─', '┤', 'α', '°', '±', '×', '§', '│', '═']
 OUT = list(' -|+abc*>') + ['一', 'é']
 
 class C15(Prop):
